@@ -20,6 +20,12 @@ Qed.
 Lemma str_gtb_irrefl : forall a, str_gtb a a = false.
 Proof. induction a; cbn; [reflexivity|]. rewrite N.eqb_refl. exact IHa. Qed.
 
+Lemma str_mem_in : forall x l, mem_str x l = true <-> In x l.
+Proof.
+  intros x l. induction l as [|y l IH]; cbn; [split; [discriminate|tauto]|].
+  rewrite orb_true_iff, IH, str_eqb_eq. split; intros [H|H]; auto.
+Qed.
+
 Lemma sort2_comm : forall a b, sort2 a b = sort2 b a.
 Proof.
   intros a b. unfold sort2. destruct (str_eqb a b) eqn:E.
@@ -27,22 +33,44 @@ Proof.
   - apply str_eqb_neq in E. rewrite (str_gtb_total a b E). destruct (str_gtb b a); reflexivity.
 Qed.
 
+Definition creating (j : joindecl) : bool :=
+  match j_kind j with JRelated => j_create j | JMultiple => false end.
+
+(* j, declared in class a, points to class b, and knows b's creating RelatedJoins *)
+Definition points_to (a b : decl) (j : joindecl) : Prop :=
+  In j (d_joins a) /\ j_kind j = JRelated /\ j_create j = true
+  /\ j_other_class j = d_class b /\ j_other_table j = table_of b
+  /\ j_other_creates j = other_creates b.
+
 (* two classes that declare the many-to-many relation towards each other *)
 Definition mirrored (a b : decl) (ja jb : joindecl) : Prop :=
-  j_kind ja = JRelated /\ j_kind jb = JRelated /\ j_create ja = true /\ j_create jb = true
-  /\ j_other_class ja = d_class b /\ j_other_class jb = d_class a
-  /\ j_other_table ja = table_of b /\ j_other_table jb = table_of a /\ j_inter ja = j_inter jb.
+  points_to a b ja /\ points_to b a jb /\ j_inter ja = j_inter jb.
+
+Lemma in_other_creates : forall b j, In j (d_joins b) -> j_kind j = JRelated -> j_create j = true ->
+  mem_str (inter_table b j) (other_creates b) = true.
+Proof.
+  intros b j Hin K C. apply (proj2 (str_mem_in _ _)). unfold other_creates. apply in_map.
+  apply filter_In. split; [exact Hin|]. rewrite K. exact C.
+Qed.
+
+Lemma mirrored_same_table : forall a b ja jb, mirrored a b ja jb -> inter_table a ja = inter_table b jb.
+Proof.
+  intros a b ja jb ((_ & _ & _ & _ & T1 & _) & (_ & _ & _ & _ & T2 & _) & I).
+  unfold inter_table. rewrite I, T1, T2. destruct (j_inter jb); [reflexivity|].
+  rewrite (sort2_comm (table_of a) (table_of b)). reflexivity.
+Qed.
 
 Theorem join_once : forall a b ja jb, d_class a <> d_class b -> mirrored a b ja jb ->
   xorb (creates_link a ja) (creates_link b jb) = true
   /\ inter_table a ja = inter_table b jb.
 Proof.
-  intros a b ja jb Hne (K1 & K2 & C1 & C2 & O1 & O2 & T1 & T2 & I).
-  split.
-  - unfold creates_link. rewrite K1, K2, C1, C2, O1, O2. cbn [andb].
-    rewrite (str_gtb_total _ _ Hne). destruct (str_gtb (d_class b) (d_class a)); reflexivity.
-  - unfold inter_table. rewrite I, T1, T2. destruct (j_inter jb); [reflexivity|].
-    rewrite (sort2_comm (table_of a) (table_of b)). reflexivity.
+  intros a b ja jb Hne Hm. pose proof (mirrored_same_table a b ja jb Hm) as Same.
+  destruct Hm as ((Ia & K1 & C1 & O1 & T1 & OC1) & (Ib & K2 & C2 & O2 & T2 & OC2) & I).
+  split; [|exact Same].
+  unfold creates_link. rewrite K1, K2, C1, C2, O1, O2, OC1, OC2. cbn [andb].
+  rewrite Same at 1. rewrite (in_other_creates b jb Ib K2 C2).
+  rewrite <- Same. rewrite (in_other_creates a ja Ia K1 C1).
+  rewrite !andb_true_r. rewrite (str_gtb_total _ _ Hne). destruct (str_gtb (d_class b) (d_class a)); reflexivity.
 Qed.
 
 (* counted over both classes' _getJoinsToCreate: exactly one creation *)
@@ -51,4 +79,35 @@ Theorem join_once_count : forall a b ja jb, d_class a <> d_class b -> mirrored a
 Proof.
   intros a b ja jb Hne Hm. destruct (join_once a b ja jb Hne Hm) as [X _].
   cbn [filter]. destruct (creates_link a ja), (creates_link b jb); try discriminate X; reflexivity.
+Qed.
+
+(* A relation declared on one side only: no creating RelatedJoin of the other class names
+   the same intermediate table.  The declaring side creates it, whatever the names, and no
+   join of the other class does. *)
+Definition one_sided (a b : decl) (jb : joindecl) : Prop :=
+  points_to b a jb /\ mem_str (inter_table b jb) (other_creates a) = false.
+
+Theorem join_one_sided : forall a b jb, one_sided a b jb ->
+  creates_link b jb = true
+  /\ forall ja, In ja (joins_to_create a) -> inter_table a ja <> inter_table b jb.
+Proof.
+  intros a b jb ((Ib & K & C & O & T & OC) & Hno). split.
+  - unfold creates_link. rewrite K, C, OC, Hno. rewrite andb_false_r. reflexivity.
+  - intros ja Hja E. unfold joins_to_create in Hja. apply filter_In in Hja. destruct Hja as [Hin Hc].
+    unfold creates_link in Hc. destruct (j_kind ja) eqn:Ka; [|discriminate].
+    apply andb_true_iff in Hc. destruct Hc as [Ca _].
+    rewrite <- E in Hno. rewrite (in_other_creates a ja Hin Ka Ca) in Hno. discriminate.
+Qed.
+
+(* so the link table is created exactly once over both classes *)
+Theorem join_one_sided_count : forall a b jb, one_sided a b jb ->
+  (List.length (filter (fun j => str_eqb (inter_table a j) (inter_table b jb)) (joins_to_create a))
+   + List.length (filter (creates_link b) [jb]) = 1)%nat.
+Proof.
+  intros a b jb H. destruct (join_one_sided a b jb H) as [C N]. cbn [filter]. rewrite C.
+  replace (filter (fun j => str_eqb (inter_table a j) (inter_table b jb)) (joins_to_create a)) with (@nil joindecl); [reflexivity|].
+  symmetry. induction (joins_to_create a) as [|j l IH]; [reflexivity|].
+  cbn [filter]. destruct (str_eqb (inter_table a j) (inter_table b jb)) eqn:E.
+  - apply str_eqb_eq in E. exfalso. exact (N j (or_introl eq_refl) E).
+  - apply IH. intros ja Hja. apply N. right. exact Hja.
 Qed.
